@@ -36,8 +36,8 @@ def run(chk):
             tasks.append(dict(npairs=2, order=o, mode='sample'))
     import itertools as _it
     for i, o in enumerate(_it.permutations(['a', 'b', 'c'])):      # pair (a,b) + free variable c, every order
-        if q and i % 2:
-            continue
+        if q and list(o) not in (['a', 'c', 'b'], ['b', 'c', 'a'], ['a', 'b', 'c']):
+            continue      # quick: the two orders with the free variable BETWEEN the pair, and one adjacent
         tasks.append(dict(npairs=1, order=list(o), mode='all', nfree=1))
     adj = [o for o in orders4 if abs(o.index('a') - o.index('b')) == 1 and abs(o.index('c') - o.index('d')) == 1]
     for i in range(4 if q else 32):
